@@ -40,11 +40,15 @@ impl<T: Qcow2IoOps> Qcow2Dev<T> {
         }
 
         let l1_index = split.l1_index(info);
+        #[cfg(qcow2_rs_verif)]
+        crate::verif::probe("ensure_l2:wait-l1-write");
         let mut l1_table = self.l1table.write().await;
 
         // check if the current index is in bound of header l1 entries
         if !l1_table.in_bounds(l1_index) {
             if l1_index >= l1_table.entries() {
+                #[cfg(qcow2_rs_verif)]
+                crate::verif::probe("grow:l1-relocate");
                 let old_l1_offset = l1_table.get_offset().unwrap();
                 let old_l1_clusters = l1_table.cluster_count(info);
 
@@ -77,6 +81,8 @@ impl<T: Qcow2IoOps> Qcow2Dev<T> {
                 };
                 let l1_entries = std::cmp::min(info.max_l1_entries(), l1_table.entries());
 
+                #[cfg(qcow2_rs_verif)]
+                crate::verif::probe("grow:l1-header-entries");
                 // update l1 entries
                 self.flush_header_for_l1_table(l1_off, l1_entries).await?;
                 l1_table.update_header_entries(l1_entries.try_into().unwrap());
@@ -178,12 +184,16 @@ impl<T: Qcow2IoOps> Qcow2Dev<T> {
 
         let mut discard = None;
         let cluster_lock = {
+            #[cfg(qcow2_rs_verif)]
+            crate::verif::probe("dwdf:wait-map-read");
             let cls_map = self.new_cluster.read().await;
             // keep this cluster locked, so that concurrent discard can
             // be avoided
 
             match cls_map.get(&key) {
                 Some(cluster) => {
+                    #[cfg(qcow2_rs_verif)]
+                    crate::verif::probe("dwdf:wait-cluster-write");
                     let mut lock = cluster.write().await;
 
                     // don't handle discard any more if someone else has done
@@ -196,9 +206,13 @@ impl<T: Qcow2IoOps> Qcow2Dev<T> {
                     if !(*lock) {
                         *lock = true;
 
+                        #[cfg(qcow2_rs_verif)]
+                        crate::verif::probe("dwdf:zero-new-data-cluster");
                         discard = Some(self.call_fallocate(host_off, info.cluster_size(), 0));
                         Some(lock)
                     } else {
+                        #[cfg(qcow2_rs_verif)]
+                        crate::verif::probe("dwdf:cluster-already-being-zeroed");
                         None
                     }
                 }
@@ -230,6 +244,8 @@ impl<T: Qcow2IoOps> Qcow2Dev<T> {
              * we have marked that this new cluster is being discarded.
              */
             drop(lock);
+            #[cfg(qcow2_rs_verif)]
+            crate::verif::probe("dwdf:wait-clear-new");
             self.clear_new_cluster(key).await;
             if may_cow {
                 // make sure data flushed before updating mapping
@@ -261,6 +277,8 @@ impl<T: Qcow2IoOps> Qcow2Dev<T> {
 
         // hold l2_table write lock, so that new mapping won't be flushed
         // to disk until cow is done
+        #[cfg(qcow2_rs_verif)]
+        crate::verif::probe("cow:wait-slice-write");
         let mut l2_table = l2_handle.value().write().await;
 
         // someone may jump on this cluster at the same time,
@@ -285,6 +303,8 @@ impl<T: Qcow2IoOps> Qcow2Dev<T> {
             .await
         {
             Err(e) => {
+                #[cfg(qcow2_rs_verif)]
+                crate::verif::probe("cow:undo");
                 log::error!("do_write_cow: data write failed");
                 // recover to previous compressed mapping & free allocated
                 // clusters
@@ -307,6 +327,8 @@ impl<T: Qcow2IoOps> Qcow2Dev<T> {
 
                 // flush refcount change, which is often small
                 // change
+                #[cfg(qcow2_rs_verif)]
+                crate::verif::probe("cow:flush-refcount");
                 self.flush_refcount().await?;
 
                 // flush mapping table in-place update
@@ -381,6 +403,8 @@ impl<T: Qcow2IoOps> Qcow2Dev<T> {
         let split = SplitGuestOffset(virt_off);
         let _ = self.ensure_l2_offset(&split).await?;
         let l2_handle = self.get_l2_slice(&split).await?;
+        #[cfg(qcow2_rs_verif)]
+        crate::verif::probe("single-map:wait-slice-write");
         let mut l2_table = l2_handle.value().write().await;
 
         let mapping = l2_table.get_mapping(&self.info, &split);
@@ -430,6 +454,8 @@ impl<T: Qcow2IoOps> Qcow2Dev<T> {
         let split = SplitGuestOffset(start);
         let _ = self.ensure_l2_offset(&split).await?;
         let l2_handle = self.get_l2_slice(&split).await?;
+        #[cfg(qcow2_rs_verif)]
+        crate::verif::probe("multi-map:wait-slice-write");
         let mut l2_table = l2_handle.value().write().await;
 
         // each time, just handle one l2 slice, so the write lock
